@@ -1,6 +1,7 @@
 package smtp
 
 import (
+	"bufio"
 	"crypto/tls"
 	"encoding/base64"
 	"errors"
@@ -860,7 +861,12 @@ func (c *Conn) handleAuth(arg string) {
 
 		encoded, err = c.readLine()
 		if err != nil {
-			return // TODO: error handling
+			// The exchange cannot go on and what arrives later would be
+			// taken for commands: give the connection up, as the command
+			// loop does when it cannot read a line.
+			c.readFailed(err)
+			c.Close()
+			return
 		}
 
 		if encoded == "*" {
@@ -1420,14 +1426,33 @@ func (c *Conn) readLine() (string, error) {
 		}
 	}
 
-	line, err := c.text.ReadLine()
-	if err == nil && c.lineLimitReader.exceeded() {
-		// The rest of this line has been refused by lineLimitReader, but
-		// bufio hands out what it had already buffered as if it were a
-		// complete line.
-		return "", ErrTooLongLine
+	// Not textproto's ReadLine: when a read fails (deadline, over-long line,
+	// lost connection) it hands out what has been buffered of the line so
+	// far as if it were a complete line, and the error is gone. Only a line
+	// that has been received up to its LF is a line.
+	var line []byte
+	for {
+		frag, err := c.text.R.ReadSlice('\n')
+		if err == bufio.ErrBufferFull {
+			// longer than the buffer: MaxLineLength is what bounds it
+			line = append(line, frag...)
+			continue
+		}
+		if err != nil {
+			return "", err
+		}
+		if line == nil {
+			line = frag
+		} else {
+			line = append(line, frag...)
+		}
+		break
 	}
-	return line, err
+	n := len(line) - 1
+	if n > 0 && line[n-1] == '\r' {
+		n--
+	}
+	return string(line[:n]), nil
 }
 
 func (c *Conn) reset() {
